@@ -94,6 +94,10 @@ def visiting(rep, spec, py, init=None):
 	if init is not None:
 		# "serving backorders before new demand", per customer: the service bookkeeping of the documented sequence of events
 		bad += [x for x in simlib.oracle_C02(spec, py['trace'], init) if 'demand met from stock' in x]
+		# "demands and orders propagate downstream-to-upstream": an order placed in period t reaches the supplier in period t + order lead time,
+		# whatever happens to the customer in between, and is never lost on the way
+		bad += [x for x in simlib.oracle_C03(spec, py['trace'], init) if 'not received by the supplier' in x]
+		bad += [x for x in simlib.oracle_C01(spec, py['trace'], init) if 'orders in transit to the supplier' in x]
 	if bad:
 		rep.diff('sim-trace-full', 'documented sequence of events violated on the real code: ' + '; '.join(bad[:3]), spec, py={'oseq': py['oseq'], 'sseq': py['sseq']}, oracle=True, theorem=THEOREM)
 
